@@ -50,7 +50,11 @@ func (c *swapController) HandlePacket(ctx context.Context, p *orbtypes.ActionPac
 		return errors.New("swap: unsupported denomination")
 	}
 	in := ta.DestinationAmount()
+	// at par when the amount is a multiple of three, otherwise half as many (rounded up)
 	out := in.AddRaw(1).QuoRaw(2)
+	if in.ModRaw(3).IsZero() {
+		out = in
+	}
 	if err := c.bank.SendCoins(ctx, core.ModuleAddress, PoolAddr(), sdk.NewCoins(sdk.NewCoin(ta.DestinationDenom(), in))); err != nil {
 		return err
 	}
